@@ -214,7 +214,8 @@ def obligations(tier):
                  'propka/conformation_container.py:ConformationContainer.extract_groups', 'propka/conformation_container.py:ConformationContainer.calculate_pka',
                  'propka/protonate.py:Protonate.protonate_atom', 'propka/energy.py:radial_volume_desolvation', 'propka/determinants.py:*']
     obs = []
-    templates = ['tri_ASP', 'tri_HIS', 'tri_ARG'] if tier == 'quick' else [
+    templates = ['tri_ASP', 'tri_HIS', 'tri_ARG', 'pair_CYS_CYS_bridge_along_x'] if tier == 'quick' else [
+        'pair_CYS_CYS_bridge_along_x', 'pair_CYS_CYS_bridge', 'pair_GLU_ARG_TYR', 'lig_MTX',
         'tri_ASP', 'tri_GLU', 'tri_HIS', 'tri_CYS', 'tri_TYR', 'tri_LYS', 'tri_ARG', 'tri_ASN', 'tri_GLN', 'tri_TRP', 'tri_SER', 'tri_PRO', 'pep8']
     axes = [((0,), 'x'), ((1,), 'y'), ((2,), 'z')] if tier == 'quick' else [((0,), 'x'), ((1,), 'y'), ((2,), 'z'), ((0, 1, 2), 'diagonal')]
     for name in templates:
@@ -224,7 +225,7 @@ def obligations(tier):
                     continue
                 obs.append(Obligation('O1-translation[%s,%s,%s]' % (name, axn, 'keep-protons' if keep else 'built-hydrogens'),
                                       mk_translate(name, ax, 0.0, 2.509 if tier == 'quick' else 5.019, keep), code=code_pipe,
-                                      bounds='micro-structure %s (3 residues cut from 1HPX) shifted by t = k/1000 along %s, k symbolic integer with t in [0, %s]; '
+                                      bounds='micro-structure %s (cut from the repository\'s test structures) shifted by t = k/1000 along %s, k symbolic integer with t in [0, %s]; '
                                              'whole real pipeline' % (name, axn, '2.509' if tier == 'quick' else '5.019'),
                                       claim_doc='bonds, groups, num_volume, buried, energy_volume identical; pKa and determinants identical (keep-protons) / '
                                                 'within %.2f (built hydrogens, positions within rounding of the shifted ones)' % TOL,
